@@ -28,6 +28,7 @@ NoUnderflow == Min2(fb * e, QuerySecurity(b, g, q)) >= 1
 
 AllBlowups == {2, 4, 8, 16, 32, 64, 128}
 SomeBlowups == {2, 8, 128}
-AllFieldBits == {62, 64, 128}
+\* the bit lengths of every modulus of Security!Flds (7, 9, 16, 31, 62, 64, 128)
+AllFieldBits == {FieldBitsOf(f) : f \in Flds}
 AllCRs == {96, 124, 128}
 =============================================================================
